@@ -144,3 +144,24 @@ theorem addDirectional_eq (P D nIn B W T : Nat) (energy_0 : Nat → Nat → ℝ)
     simp [be_getScatteringDataSource]
 
 end Sparrow
+
+namespace Sparrow
+open Sparrow.Generated.BakeKernels
+
+/-- `get_scattering_data_receiver_index` as translated: for every patch `i` the outgoing sample of
+    ITS wall nearest to the direction from its centre to the point `pt` (used for the
+    patch-to-patch slot in `bake_geometry` and for the slot towards a receiver). -/
+theorem getScatteringDataReceiverIndex_eq (P W D : Nat) (pc : Nat → Nat → ℝ) (pt : Nat → ℝ)
+    (receivers : Nat → Nat → Nat → ℝ) (wall : Nat → Nat) (s0 : Nat) (i : Nat) (hi : i < P) :
+    getScatteringDataReceiverIndex P 3 pc 3 pt W D 3 receivers s0 wall i =
+      nearest (fun k => ⟨receivers (wall i) k 0, receivers (wall i) k 1, receivers (wall i) k 2⟩) D
+        (Vec3.normalize (Vec3.sub ⟨pt 0, pt 1, pt 2⟩ ⟨pc i 0, pc i 1, pc i 2⟩)) := by
+  simp only [getScatteringDataReceiverIndex]
+  refine be_foldl_cell _ (fun (st : Nat → Nat) => st i) _ _ i (by simpa using hi) ?_ _ ?_
+  · intro ii hii hne st
+    simp [Ne.symm hne]
+  · intro st hst
+    simp only [be_sum3]
+    simp [nearest, Vec3.sqDist, Vec3.normalize, Vec3.norm, Vec3.dot, Vec3.sub, Vec3.sdiv]
+
+end Sparrow
